@@ -35,6 +35,11 @@ def units(tier, seed):
     for rounds in (2, 4, 6, 8, 12, 16):
         for dg in ('sha1', 'sha256', 'md5', 'sha512'):
             us.append(('ffxcfg/%d/%s' % (rounds, dg), {'kind': 'ffx', 'n': None, 'ki': 1, 'rounds': rounds, 'digest': dg, 'ns': list(range(2, 9 if tier == 'quick' else 11))}))
+    # every digest hashlib offers with a fixed size, at the default round count: small widths exhaustively, and wide inputs whose
+    # Feistel halves need one, two, three ... digest blocks
+    for dg in ('sha224', 'sha384', 'sha3_256', 'sha3_512', 'blake2s', 'blake2b', 'sha256', 'sha512', 'md5'):
+        us.append(('ffxdg/%s' % dg, {'kind': 'ffx', 'n': None, 'ki': 2, 'rounds': 10, 'digest': dg, 'ns': [2, 3, 7, 8]}))
+        us.append(('ffxwdg/%s' % dg, {'kind': 'ffxw', 'n': None, 'ns': [255, 256, 257, 449, 513, 770, 1000, 1025, 1281, 1600, 2047], 'count': 4, 'digest': dg}))
     us.append(('fpeprp', {'kind': 'fpeprp'}))
     us.append(('keyhist', {'kind': 'keyhist'}))
     for q in range(4):
@@ -115,35 +120,38 @@ def run_unit(p, tier, seed):
             r.outcome('bijective/n=%d' % n)
         r.sample({'prim': 'BitwiseFFX', 'n': n, 'key_index': ki, 'inputs': 'all %d' % (1 << n)})
     elif kind == 'ffxw':
-        n = p['n']
-        g = det.rng(seed, 'c15-ffxw', n)
-        key = g.randbytes(24)
-        f = BitwiseFFX()
-        outs = {}
-        xs = [0, 1, (1 << n) - 1, 1 << (n - 1)] + [g.getrandbits(n) for _ in range(p['count'])]
-        r.count('ffx-wide')
-        for x in xs:
-            case = {'n': n, 'x': x}
-            core.note_case(case)
-            r['evaluations'] += 1
-            r['states'] += 1
-            r['transitions'] += 2
-            r['nontrivial'] += 1 if x else 0
-            try:
-                y = f.encrypt(key, Bitset(x, n))
-                z = f.decrypt(key, y)
-            except Exception as e:
-                r.v(PROPERTY, 'BitwiseFFX', 'raises', '%s:%s' % (core.exc_site(e), type(e).__name__), case, 'encrypt/decrypt succeed', core.exc_text(e))
-                continue
-            if len(y) != n or int(y).bit_length() > n:
-                r.v(PROPERTY, 'BitwiseFFX', 'length', 'encrypt', case, n, len(y))
-            if int(z) != x or len(z) != n:
-                r.v(PROPERTY, 'BitwiseFFX', 'inverse', 'decrypt(encrypt(x))', case, 'x', 'differs')
-            if int(y) in outs and outs[int(y)] != x:
-                r.v(PROPERTY, 'BitwiseFFX', 'bijection', 'collision', case, 'distinct outputs', 'collision with another input')
-            outs[int(y)] = x
-        r.outcome('wide-ok')
-        r.sample({'prim': 'BitwiseFFX', 'n': n, 'inputs': len(xs)})
+        import hashlib
+        for n in (p.get('ns') or [p['n']]):
+            g = det.rng(seed, 'c15-ffxw', n)
+            key = g.randbytes(24)
+            f = BitwiseFFX(digest_mod=getattr(hashlib, p['digest'])) if p.get('digest') else BitwiseFFX()
+            outs = {}
+            xs = [0, 1, (1 << n) - 1, 1 << (n - 1)] + [g.getrandbits(n) for _ in range(p['count'])]
+            r.count('ffx-wide')
+            for x in xs:
+                case = {'n': n, 'x': x}
+                if p.get('digest'):
+                    case['digest'] = p['digest']
+                core.note_case(case)
+                r['evaluations'] += 1
+                r['states'] += 1
+                r['transitions'] += 2
+                r['nontrivial'] += 1 if x else 0
+                try:
+                    y = f.encrypt(key, Bitset(x, n))
+                    z = f.decrypt(key, y)
+                except Exception as e:
+                    r.v(PROPERTY, 'BitwiseFFX', 'raises', '%s:%s' % (core.exc_site(e), type(e).__name__), case, 'encrypt/decrypt succeed', core.exc_text(e))
+                    continue
+                if len(y) != n or int(y).bit_length() > n:
+                    r.v(PROPERTY, 'BitwiseFFX', 'length', 'encrypt', case, n, len(y))
+                if int(z) != x or len(z) != n:
+                    r.v(PROPERTY, 'BitwiseFFX', 'inverse', 'decrypt(encrypt(x))', case, 'x', 'differs')
+                if int(y) in outs and outs[int(y)] != x:
+                    r.v(PROPERTY, 'BitwiseFFX', 'bijection', 'collision', case, 'distinct outputs', 'collision with another input')
+                outs[int(y)] = x
+            r.outcome('wide-ok')
+            r.sample({'prim': 'BitwiseFFX', 'n': n, 'inputs': len(xs)})
     elif kind == 'fpeprp':
         P = get_prp_implementation('BitwiseFPEPRP')
         g = det.rng(seed, 'c15-fpeprp')
@@ -464,7 +472,7 @@ def replay(case, seed):
     if 'key_index' in case and 'n' in case:
         return run_unit({'kind': 'ffx', 'n': case['n'], 'ki': case['key_index'], 'rounds': case.get('rounds'), 'digest': case.get('digest')}, 'quick', seed)['violations']
     if 'n' in case and 'x' in case:
-        return run_unit({'kind': 'ffxw', 'n': case['n'], 'count': 20}, 'quick', seed)['violations']
+        return run_unit({'kind': 'ffxw', 'n': case['n'], 'count': 20 if not case.get('digest') else 4, 'digest': case.get('digest')}, 'quick', seed)['violations']
     if 'declared' in case or case.get('n') == 6 or case.get('shared_key'):
         return run_unit({'kind': 'fpeprp'}, 'quick', seed)['violations']
     if 'key_history' in case or 'object' in case:
